@@ -546,6 +546,9 @@ type Contract struct {
 	implDone   bool
 	Covers     []*Clause
 	Locals     map[string]string
+	// AssumesPre names callees ("CalculateSaleReturn", "(*Coins).SubVolume") whose preconditions are assumed, not proved, at
+	// the call sites inside this function (a state invariant the function relies on); every use is listed in the trusted base.
+	AssumesPre map[string]string
 }
 
 type LetDef struct {
@@ -734,6 +737,19 @@ func ParseContractText(pkg, file, text string) (*ContractFile, error) {
 				cur.Locals = map[string]string{}
 			}
 			cur.Locals[fs[0]] = strings.Join(fs[1:], " ")
+		case "assumespre":
+			// assumespre <callee> [: reason]
+			if cur == nil {
+				return nil, fmt.Errorf("%s:%d: assumespre outside func", file, ln)
+			}
+			name, why := rest, ""
+			if i := strings.Index(rest, ":"); i >= 0 {
+				name, why = strings.TrimSpace(rest[:i]), strings.TrimSpace(rest[i+1:])
+			}
+			if cur.AssumesPre == nil {
+				cur.AssumesPre = map[string]string{}
+			}
+			cur.AssumesPre[name] = why
 		case "covers":
 			// a situation that must be reachable at a normal return (vacuity guard for the clauses that talk about it)
 			c, err := parseClause(rest, file, ln)
